@@ -198,6 +198,35 @@ func (f *fnTrans) applyCall(ins ssa.Instruction, name string, ct *Contract, sig 
 		return e
 	}
 	ord := f.callOrdinal(ins, name)
+	// objects this function is still building are handed to a callee that takes their type
+	// invariant for granted: it must hold by now (unless the callee declares it constructs them)
+	if fnVal := f.w.Fns[name]; fnVal != nil && !isInvoke && closureBind == nil {
+		cct := ct
+		for k, p := range fnVal.Params {
+			if k >= len(args) {
+				break
+			}
+			if _, isPtr := p.Type().Underlying().(*types.Pointer); !isPtr {
+				continue
+			}
+			constructing := false
+			if cct != nil {
+				for _, n := range cct.Constructs {
+					if n == p.Name() {
+						constructing = true
+					}
+				}
+			}
+			if constructing {
+				continue
+			}
+			if inv := f.typeInv(args[k], p.Type()); inv.S != "true" {
+				isFresh := Gt(App("root", SInt, args[k]), Sym("G$allocTop@0", SInt))
+				o := f.oblige("typeinv", fmt.Sprintf("type invariant of argument %s of %s if the object was built here", p.Name(), name), ins.Pos(), f.allProps, f.here(), Implies(isFresh, inv))
+				o.Name = fmt.Sprintf("%s/call:%s#%d/typeinv:%s", f.name, name, ord, p.Name())
+			}
+		}
+	}
 	for _, cs := range cases {
 		env := mkEnv(cs, pre)
 		for i, cl := range cs.reqs {
